@@ -68,8 +68,9 @@ type Host struct {
 // modState is the host-side state of one calling instance: the host functions behave as
 // pure functions of (arguments, number of calls made by that instance).
 type modState struct {
-	calls uint64
-	log   []string
+	calls   uint64
+	log     []string
+	entered []uint32 // function indices reported by the generator's enter hook (C20 ground truth)
 }
 
 func (h *Host) state(mod api.Module) *modState {
@@ -83,6 +84,14 @@ func (h *Host) state(mod api.Module) *modState {
 	}
 	h.cur = st
 	return st
+}
+
+// EnteredOf returns the sequence of function entries reported by the enter hook.
+func (h *Host) EnteredOf(mod api.Module) []uint32 {
+	if st := h.per[mod]; st != nil {
+		return st.entered
+	}
+	return nil
 }
 
 // LogOf returns the host-call log of one instance.
@@ -122,6 +131,13 @@ func (h *Host) Instantiate(ctx context.Context, rt wazero.Runtime, m *wasmgen.Mo
 		n++
 		var fn api.GoModuleFunction
 		switch f.HostName {
+		case "enter":
+			fn = api.GoModuleFunc(func(ctx context.Context, mod api.Module, stack []uint64) {
+				st := h.state(mod)
+				if len(st.entered) < 100000 {
+					st.entered = append(st.entered, uint32(stack[0]))
+				}
+			})
 		case "grow":
 			fn = api.GoModuleFunc(func(ctx context.Context, mod api.Module, stack []uint64) {
 				d := uint32(stack[0]) & 1
@@ -172,8 +188,7 @@ func (h *Host) Instantiate(ctx context.Context, rt wazero.Runtime, m *wasmgen.Mo
 					fmt.Fprintf(&sb, "%x,", v)
 					acc = mix(acc ^ v)
 				}
-				sb.WriteByte(')')
-				h.log(st, sb.String())
+				sb.WriteString(")->")
 				for i, r := range f.Sig.R {
 					v := mix(acc + uint64(i))
 					switch r {
@@ -183,7 +198,9 @@ func (h *Host) Instantiate(ctx context.Context, rt wazero.Runtime, m *wasmgen.Mo
 						v &= 0xff
 					}
 					stack[i] = v
+					fmt.Fprintf(&sb, "%x,", v)
 				}
+				h.log(st, sb.String())
 			})
 		}
 		b = b.NewFunctionBuilder().WithGoModuleFunction(fn, f.Sig.P, f.Sig.R).Export(f.HostName)
